@@ -42,11 +42,14 @@ type batchRec struct {
 	nonEmpty bool
 }
 
-func newBatchRec(name string, unbuf bool) *batchRec {
+func newBatchRec(name string, unbuf bool, late ...chan struct{}) *batchRec {
 	r := &batchRec{name: name, unbuf: unbuf}
 	if unbuf {
 		r.done = make(chan error)
 		go func() {
+			if len(late) > 0 && late[0] != nil {
+				<-late[0] // a receiver that only arrives once Stop has returned (it then keeps receiving)
+			}
 			for {
 				v := <-r.done
 				r.count.Add(1)
@@ -114,9 +117,13 @@ func c05Root(p c05p) func() {
 			vapi.Fail("config: %v", err)
 			return
 		}
-		unbuf := p.ch == "unbuf"
+		unbuf := p.ch == "unbuf" || p.ch == "late"
+		var lateGate chan struct{}
+		if p.ch == "late" {
+			lateGate = make(chan struct{})
+		}
 		mk := func(name string, rows []map[string]any) c05item {
-			return c05item{rows: rows, rec: newBatchRec(name, unbuf)}
+			return c05item{rows: rows, rec: newBatchRec(name, unbuf, lateGate)}
 		}
 		p1 := []c05item{mk("A", []map[string]any{row("k", "a")})}
 		var p2 []c05item
@@ -186,6 +193,9 @@ func c05Root(p c05p) func() {
 			vapi.Log("ret Stop %v", err == nil)
 			stopErr.Set(err)
 		}
+		if lateGate != nil {
+			close(lateGate)
+		}
 		if p.stop == "none" {
 			time.Sleep(400 * time.Millisecond) // lets the time-based flush happen (virtual time)
 		}
@@ -219,6 +229,9 @@ func init() {
 				{2, 2, "first", "deadline", "multi", "unbuf", false},
 				{1, 1, "first", "after", "plain", "buf", true},
 				{1, 0, "none", "after", "plain", "buf", false},
+				// receivers that arrive only after Stop(deadline) has returned: the deadline abort
+				// fires while a worker is parked on a done channel (finding F13)
+				{1, 0, "first", "deadline", "empty", "late", false},
 			}
 		} else {
 			for _, ib := range []int{1, 2} {
@@ -239,6 +252,13 @@ func init() {
 								}
 							}
 						}
+					}
+				}
+			}
+			for _, rows := range []int{1, 2, 0} {
+				for _, shape := range []string{"plain", "bad", "flush", "empty", "multi"} {
+					for _, start := range []string{"first", "conc", "none"} {
+						ps = append(ps, c05p{1, rows, start, "deadline", shape, "late", false})
 					}
 				}
 			}
